@@ -2,6 +2,7 @@
 // C03 (printing paths), C17 (purity / cached / concurrent renders).
 //   expr   <infile> <out> [from]     lines: <expression units csv> TAB <tokens json>; evaluates and renders the three tag forms
 //   render <infile> <out> [from]     lines: <template units csv> TAB <value json units csv> TAB <meta json>; renders in 4 widths
+//   cache  <infile> <out> [from]     C16: lifetimes of the parsed tag array (copy, move, assign, clear, reuse, append, drop)
 //   (both copy the json columns into the event unchanged; `from` = first case to run, for crash recovery)
 //   parse  <infile> <out> [from]     (xasan build, hook H2) lines as for render; renders once in char and records the scanner's
 //                                    state at every dispatched token: {"c":case,"i":step,"tok":id,"tree":..,"ps":[path..],"cur":path,
@@ -131,10 +132,11 @@ static std::vector<long> render(const std::vector<long> &tmpl, const Value<Ch> &
 }
 
 static const char *VARS_JSON =
-    R"({"n0":0,"n1":1,"n2":2,"n3":3,"n7":7,"m2":-2,"h":0.5,"r":2.5,"s2":"2","s25":"2.5","t":true,"f":false,"nul":null,"txt":"abc","txt2":"abd","empty":"","arr":[1],"obj":{"a":1}})";
+    R"({"n0":0,"n1":1,"n2":2,"n3":3,"n7":7,"m2":-2,"h":0.5,"r":2.5,"s2":"2","s25":"2.5","t":true,"f":false,"nul":null,"txt":"abc","txt2":"abd","empty":"","sp":"12abc","sd":"2024-01-05","arr":[1],"obj":{"a":1}})";
 
 int main(int argc, char **argv) {
     vf::install_handlers();
+    vf::ledger_trace("h_template", true);
     if (argc < 4) return 2;
     std::string mode = argv[1];
     FILE *in = fopen(argv[2], "r");
@@ -241,6 +243,64 @@ int main(int argc, char **argv) {
             int wsame = (!ascii) || (o16 == o8 && o32 == o8);
             fprintf(out, "{\"t\":%s,\"out\":%s,\"prefix\":%d,\"wsame\":%d,\"vsame\":%d,\"meta\":%s}\n", jt.c_str(), jo.c_str(), (p8 && p16 && p32) ? 1 : 0, wsame ? 1 : 0,
                     before == after ? 1 : 0, cols[2].c_str());
+        }
+    } else if (mode == "cache") {
+        // C16: tag-cache lifetimes - parse, copy, move, assign, clear, reuse with another template, destroy in every order
+        std::vector<long> prev;
+        while (vf::read_line(in, line)) {
+            long idx = n++;
+            if (idx < from) continue;
+            auto cols = vf::split(line, '\t');
+            if (cols.size() < 3) continue;
+            std::vector<long> t = vf::parse_ints(cols[0].c_str()), vj = vf::parse_ints(cols[1].c_str());
+            vf::begin_case(idx, 10);
+            {
+                std::string d = "template=";
+                for (long u : t) d.push_back((u >= 32 && u < 127) ? (char)u : '?');
+                snprintf(vf::g_desc, sizeof(vf::g_desc), "%s", d.substr(0, 900).c_str());
+            }
+            int same = 1;
+            {
+                using Core = TemplateCore<char, Value<char>, StringStream<char>>;
+                vf::Exact<char>     buf(t.begin(), t.end()), pbuf(prev.begin(), prev.end());
+                Value<char>         v = parse_value<char>(vj);
+                Array<Tags::TagBit> cache;
+                Core::Parse((const char *)buf.data(), (SizeT)buf.n, cache);
+                Core               core((const char *)buf.data(), (SizeT)buf.n), pcore((const char *)pbuf.data(), (SizeT)pbuf.n);
+                StringStream<char> fresh;
+                core.Render(cache, v, fresh);
+                auto same_as_fresh = [&](const Array<Tags::TagBit> &c) {
+                    StringStream<char> ss;
+                    core.Render(c, v, ss);
+                    return ss == fresh;
+                };
+                Array<Tags::TagBit> copy(cache);                       // deep copy
+                same &= same_as_fresh(copy);
+                Array<Tags::TagBit> moved(Memory::Move(copy));         // move construction; `copy` is empty now
+                same &= same_as_fresh(moved) && copy.IsEmpty();
+                Array<Tags::TagBit> assigned;
+                Core::Parse((const char *)pbuf.data(), (SizeT)pbuf.n, assigned);   // holds the previous template's tags ...
+                assigned = cache;                                      // ... overwritten by copy assignment
+                same &= same_as_fresh(assigned);
+                assigned = Memory::Move(moved);                        // ... and by move assignment
+                same &= same_as_fresh(assigned);
+                assigned = assigned;                                   // self assignment
+                same &= same_as_fresh(assigned);
+                cache.Clear();                                         // clear and reuse for another template
+                Core::Parse((const char *)pbuf.data(), (SizeT)pbuf.n, cache);
+                StringStream<char> a, b;
+                pcore.Render(cache, v, a);
+                Template::Render((const char *)pbuf.data(), (SizeT)pbuf.n, v, b);
+                same &= (a == b);
+                cache += assigned;                                     // append a copy of one cache to another, then drop part of it
+                cache.Drop(cache.Size() / 2);
+                Array<Tags::TagBit> half(cache);
+                half.Reset();
+            }
+            std::string jt;
+            vf::json_ints(jt, t);
+            fprintf(out, "{\"t\":%s,\"same\":%d}\n", jt.c_str(), same);
+            prev = t;
         }
     } else if (mode == "parse") {
 #ifdef QENTEM_VERIF
